@@ -58,9 +58,9 @@ def install(w):
                 "C05.fetchmany.count": f"len(result) == max(0, min({K}, nrows({T_}) - {OFF}))",
                 "C05.fetchmany.index": f"self._arrow_table_fetch_index == {OFF} + {K}",
                 "C05.fetchmany.elems": "forall(0, len(result), lambda j: is_dict(result[j]) if self._use_dict_result else is_tuple(result[j]))",
-                "C05.fetchmany.width": f"implies(not self._use_dict_result, forall(0, len(result), lambda j: is_tuple(result[j]) and len(seq(result[j])) == ncols({T_})))",
-                "C05.fetchmany.tuple_rows": f"implies(not self._use_dict_result and distinct_names({T_}), forall(0, len(result), lambda j: seq(result[j]) == cells(rows({T_})[{OFF} + j])))",
-                "C05.fetchmany.dict_rows": f"implies(self._use_dict_result and distinct_names({T_}), forall(0, len(result), lambda j: is_dict(result[j]) and dict_keys(result[j]) == names({T_}) and forall(0, ncols({T_}), lambda c: dict_at(result[j], names({T_})[c]) == cells(rows({T_})[{OFF} + j])[c])))",
+                "C05.fetchmany.width": f"implies(not self._use_dict_result, forall(0, len(result), lambda j: seq_len(result[j]) == ncols({T_})))",
+                "C05.fetchmany.tuple_rows": f"implies(not self._use_dict_result, forall(0, len(result), lambda j: forall(0, ncols({T_}), lambda c: seq_at(result[j], c) == cell(row({T_}, {OFF} + j), c))))",
+                "C05.fetchmany.dict_rows": f"implies(self._use_dict_result and distinct_names({T_}), forall(0, len(result), lambda j: dict_len(result[j]) == ncols({T_}) and forall(0, ncols({T_}), lambda c: dict_key(result[j], c) == colname({T_}, c) and dict_at(result[j], colname({T_}, c)) == cell(row({T_}, {OFF} + j), c))))",
             },
             props=["C05", "C01"],
         )
@@ -75,8 +75,8 @@ def install(w):
             ensures={
                 "C05.fetchone.index": f"self._arrow_table_fetch_index == {OFF} + 1",
                 "C05.fetchone.none_at_end": f"(result is None) == ({OFF} >= nrows({T_}))",
-                "C05.fetchone.row": f"implies(result is not None and not self._use_dict_result and distinct_names({T_}), seq(result) == cells(rows({T_})[{OFF}]))",
-                "C05.fetchone.width": f"implies(result is not None and not self._use_dict_result, len(seq(result)) == ncols({T_}))",
+                "C05.fetchone.row": f"implies(result is not None and not self._use_dict_result, forall(0, ncols({T_}), lambda c: seq_at(result, c) == cell(row({T_}, {OFF}), c)))",
+                "C05.fetchone.width": f"implies(result is not None and not self._use_dict_result, seq_len(result) == ncols({T_}))",
             },
             props=["C05"],
         )
@@ -92,8 +92,8 @@ def install(w):
             ensures={
                 "C05.fetchall.count": f"len(result) == max(0, nrows({T_}) - {OFF})",
                 "C05.fetchall.exhausts": f"self._arrow_table_fetch_index >= nrows({T_})",
-                "C05.fetchall.tuple_rows": f"implies(not self._use_dict_result and distinct_names({T_}), forall(0, len(result), lambda j: seq(result[j]) == cells(rows({T_})[{OFF} + j])))",
-                "C05.fetchall.width": f"implies(not self._use_dict_result, forall(0, len(result), lambda j: len(seq(result[j])) == ncols({T_})))",
+                "C05.fetchall.tuple_rows": f"implies(not self._use_dict_result, forall(0, len(result), lambda j: forall(0, ncols({T_}), lambda c: seq_at(result[j], c) == cell(row({T_}, {OFF} + j), c))))",
+                "C05.fetchall.width": f"implies(not self._use_dict_result, forall(0, len(result), lambda j: seq_len(result[j]) == ncols({T_})))",
             },
             props=["C05"],
         )
